@@ -300,6 +300,8 @@ theorem skipResource_unpackResource_agree (msg : Bytes) (off o1 : Nat) (r : Reso
                       · rename_i len' u5 hu5
                         rw [hs5] at hu5
                         simp at hu5
+                        split at hh
+                        · simp at hh
                         simp at hh
                         rcases hh with ⟨hhd, hoh⟩
                         subst hhd hoh
@@ -695,6 +697,8 @@ theorem headerSkip_implies_skip (msg : Bytes) (off : Nat) (it : Item) (o : Nat)
                 split at hh
                 · simp at hh
                 · rename_i len o5 h5
+                  split at hh
+                  · simp at hh
                   simp at hh
                   rcases hh with ⟨rfl, rfl⟩
                   refine ⟨?_, by omega⟩
@@ -703,6 +707,32 @@ theorem headerSkip_implies_skip (msg : Bytes) (off : Nat) (it : Item) (o : Nat)
                   simp at hbound ⊢
                   omega
     · simp at h
+
+/-- **Where `Parser.resource` (and the typed `XResource` methods after `XHeader`) succeeds,
+`SkipX` succeeds and advances to the same position, inside the message** - the clause "Skip
+methods advance to the same position as the corresponding parse methods" in the direction
+parse ⇒ skip (since the rdlength-overrun repair: `Parser.resourceHeader` checks RDLENGTH against
+the message; the converse fails by design - skipping validates neither names nor bodies). -/
+theorem parse_implies_skip (msg : Bytes) (off : Nat) (r : Resource) (o : Nat)
+    (h : unpackResource msg off = .ok (r, o)) : skipResource msg off = .ok o ∧ o ≤ msg.length := by
+  unfold unpackResource at h
+  split at h
+  · simp at h
+  · rename_i hd oh hh
+    split at h
+    · simp at h
+    · rename_i b hb
+      simp at h
+      rcases h with ⟨_, rfl⟩
+      have hw : walkResource msg off .headerSkip = .ok (.h hd, oh + hd.length) := by
+        have hbound : ¬ (oh + hd.length > msg.length) := by
+          unfold unpackRHeader at hh
+          repeat' (split at hh <;> try (simp at hh; done))
+          simp at hh
+          rcases hh with ⟨rfl, rfl⟩
+          assumption
+        simp [walkResource, hh, skipAfterHeader, hbound]
+      exact headerSkip_implies_skip msg off _ _ hw
 
 /-! ## Every loop of the reader terminates -/
 
